@@ -190,6 +190,24 @@ class SymStr(NativeAbs):
     def to_str(self, it):
         return "<symbolic string>"
 
+    def getattr(self, it, name):
+        if name == "startswith":
+            return _StartsWith(self)
+        raise Unsupported(f"SymStr.{name}")
+
+
+class _StartsWith(NativeAbs):
+    def __init__(self, s):
+        self.s = s
+
+    def call(self, it, args, kwargs):
+        o = args[0].t if isinstance(args[0], SymStr) else sv(args[0])
+        return SBool(z3.PrefixOf(o, self.s.t))
+
+
+class _Dummy:
+    pass
+
 
 class SymMatch(NativeAbs):
     def __init__(self, groups):
@@ -323,6 +341,18 @@ def gen_split_line(loader, check, replay_on=True):
         ok = p.outcome == "raise" and p.value.cls is ValueError
         check.ob("split_resolved_shortcode#malformed-line-raises-ValueError", pi, p.ctx.pc, ok, replay=rp,
                  detail=f"outcome {p.outcome} {p.value!r}")
+    for name, body, nl in (("A2_add", "{ RdV = RsV + RtV; }", "\n"), ("J2_x", "{ f(a, (b), c); g(\"), \"); }", ""), ("S2_y", "{ if (x) { insn(Q, z) } }", "\n"),
+                           ("a", ")", ""), ("V6_z", "{ a = b ? (c) : d; })", "\n")):
+        inst = f"ground name={name!r} body={body!r}"
+        check.instances_declared += 1
+        ex = explore(loader, lambda it, name=name, body=body, nl=nl: f"insn({name}, {body}){nl}", lambda it, line: it.call(f, [line], {}))
+        check.absorb(ex, f"split_resolved_shortcode {inst}")
+        if ex.paths:
+            check.instances_generated += 1
+        for p in ex.paths:
+            rp = ("c19.split_line", lambda mdl, name=name, body=body, nl=nl: {"name": name, "body": body, "nl": nl}) if replay_on else None
+            check.ob("split_resolved_shortcode#ensures.ground-witness", inst, p.ctx.pc, p.outcome == "return" and p.value == (name, body), replay=rp,
+                     detail=f"{p.outcome} {p.value!r}")
     check.extra["regexes_translated"] = sorted({f"re.{k}({pt!r}, flags={fl})" for k, pt, fl in seen})
 
 
@@ -377,6 +407,22 @@ def gen_split_compounds(loader, check, replay_on=True):
             inner2 = z3.SubString(r[1].t, 1, z3.Length(r[1].t) - 2)
             orig_wo_markers = z3.Concat(PRE, sv("{"), P1, sv("}"), REST)
             check.ob("split_compounds#ensures.nothing-lost", pi, pc, z3.Concat(r[0].t, inner2) == orig_wo_markers, replay=rp)
+    # ground witness classes (nested braces, statement-expressions, empty rest): fully concrete, so verdicts never depend on solver search
+    for p1, rest in (("a;", ""), ("if (x) { y; } z;", "c;"), ("{ }", "if (c) { d; }"), ("for (i = 0; i < 2; i++) { RdV = ({ x; }); }", "{ e; } f;"),
+                     ("P0 = cmp(RsV, (1, 2));", "if (P0) { JUMP(riV); }")):
+        inst = f"ground part1={p1!r} rest={rest!r}"
+        check.instances_declared += 1
+
+        def setupg(it, p1=p1, rest=rest):
+            return "{" + MARK + "{" + p1 + "}" + MARK + rest + "}"
+        ex = explore(loader, setupg, lambda it, beh: it.call(f, [beh], {}))
+        check.absorb(ex, f"split_compounds {inst}")
+        if ex.paths:
+            check.instances_generated += 1
+        for p in ex.paths:
+            rp = ("c19.compound", lambda mdl, p1=p1, rest=rest: {"pre": "", "p1": p1, "rest": rest}) if replay_on else None
+            ok = p.outcome == "return" and p.value == ("{" + p1 + "}", "{" + rest + "}")
+            check.ob("split_compounds#ensures.ground-witness", inst, p.ctx.pc, ok, replay=rp, detail=f"{p.outcome} {p.value!r}")
     check.extra.setdefault("regexes_translated", [])
     check.extra["regexes_translated"] = sorted(set(check.extra["regexes_translated"]) | {f"re.{k}({pt!r}, flags={fl})" for k, pt, fl in seen})
     check.notes.append("brace balance of the two parts follows from the exact decomposition: part1 == '{' P1 '}' and part2 == '{' REST '}' "
